@@ -19,6 +19,9 @@ import nfc.snep.client
 import nfc.snep.server
 from harness.util import same
 from env.sockpair import Link, FakeLLC, Deadlock
+from harness import c06_stack
+from harness.c06_stack import (stack_snep_put, stack_snep_get,      # noqa: F401
+                                stack_handover)                       # noqa: F401
 
 PROPERTY = "C06"
 
@@ -453,6 +456,7 @@ def partitions(tier):
     # two requests on one connection
     ho("handover-two:sym", [[[0, 0], [1, 1]], [[5, 30], [20, 2]]], "sym", "sym")
     ho("handover-two:128", [[[0, 0], [1, 1]], [[100, 90], [20, 130]]], "128", "128")
+    parts += c06_stack.partitions(tier)     # the same over the real LLCP stack
     return parts
 
 
@@ -461,6 +465,7 @@ MUST_REACH = ["put:delivered", "put:fragmented", "put:refused", "get:returned",
               "get:request-fragmented", "handover:exchanged",
               "handover:request-fragmented", "handover:response-fragmented",
               "miu-opaque-checked"]
+MUST_REACH = MUST_REACH + c06_stack.MUST_REACH
 BOUNDS = {
     "quick": "SNEP over a reliable connection, all message octets symbolic: "
     "PUT of every length 0..43 with send-MIU symbolic 6..12 per direction "
@@ -477,11 +482,13 @@ BOUNDS = {
     "handover pads 0..47",
 }
 OUTSIDE = [
-    "'over the complete stack from connect() down to the radio frames': the "
-    "LLCP link (C05/C10), NFC-DEP (C04) and driver layers under real thread "
-    "scheduling are not composed here; the connection is the SockPair model",
-    "socket window/RW, aggregation, initiator/target role: invisible above a "
-    "reliable boundary-preserving connection",
+    "'over the complete stack from connect() down to the radio frames': "
+    "NFC-DEP (C04) and the driver layers are not composed here; the symbolic-"
+    "MIU partitions run over the SockPair model, the stack:* partitions "
+    "(harness/c06_stack.py) over two real LogicalLinkControllers with a "
+    "lossless frame pump, for a selection of lengths and configurations",
+    "socket window/RW, aggregation, initiator/target role: only in the "
+    "stack:* partitions (RW 1, 2, 15; link MIU 128, 248, 2175)",
     "loss of the connection in the middle of a message (the SNEP server then "
     "hands the partial message to process_snep_request)",
     "NDEF encoding/decoding of the octets (ndeflib) for SNEP; handover message "
@@ -503,3 +510,6 @@ ASSUMPTIONS = [
     "function (_serve / serve) is called directly instead of through the "
     "listen/accept thread",
 ]
+BOUNDS = dict((t, BOUNDS[t] + ".  " + c06_stack.BOUNDS[t]) for t in BOUNDS)
+OUTSIDE = OUTSIDE + c06_stack.OUTSIDE
+ASSUMPTIONS = ASSUMPTIONS + c06_stack.ASSUMPTIONS
